@@ -326,3 +326,16 @@ void* __tsan_create_fiber(unsigned f) { (void)f; return (void*)1; }
 void __tsan_destroy_fiber(void* f) { (void)f; }
 void __tsan_switch_to_fiber(void* f, unsigned fl) { (void)f; (void)fl; }
 void* __tsan_get_current_fiber(void) { return (void*)1; }
+
+/* ---------- guarded hooks in /repo (include/machine_specific.h) ---------- */
+static __thread long dcas_loc = -1;
+void verif_dcas_before(volatile void* location) { dcas_loc = apoint(location); }
+void verif_dcas_after(volatile void* location, int result) {
+  if (dcas_loc < 0 || rt_tid < 0) return;
+  volatile a64* p = (volatile a64*)location;
+  if (!result) rt_stat_cas_fail++;
+  long k = (result ? K_DCAS_OK : K_DCAS_FAIL) * 10 + 5;
+  push_ev(rt_tid, dcas_loc, k, rt_canon(p[0]));
+  push_ev(rt_tid, dcas_loc + 1, k, rt_canon(p[1]));
+  dcas_loc = -1;
+}
